@@ -111,6 +111,36 @@ def builders():
     return out
 
 
+def layout_fields(proto, o):
+    """octet sequences of the fields a payload layout of spec/HyteraPayloads.tla is made of, taken from the attributes of the
+    built object with the harness's own big-endian arithmetic (GPS record: the library's 40 octets)"""
+    def ip(x):
+        return [int(x.subnet) & 255] + list(int(x.radio_id).to_bytes(3, "big")) if x is not None else []
+
+    def code(x):
+        v = x.value if hasattr(x, "value") else x
+        return [int(v) & 255] if v is not None else []
+
+    lay = {"ip": [], "ip2": [], "req": [], "res": [], "renew": [], "gps": [], "body": [], "has_opt": False, "opt": [], "confirmed": False}
+    if proto == "RRS":
+        lay["ip"] = ip(o.radio_ip)
+        if o.opcode.name == "RadioRegistrationAnswer":
+            lay["res"], lay["renew"] = code(o.result), list(int(o.renew_time_seconds).to_bytes(4, "big"))
+        elif o.opcode.name == "RegistrationStatusCheckAnswer":
+            lay["res"] = code(o.radio_state)
+    elif proto == "LP":
+        lay["req"], lay["ip"] = list(int(o.request_id).to_bytes(4, "big")), ip(o.radio_ip)
+        if o.specific_service.name == "StandardReport":
+            r = o.result.value if hasattr(o.result, "value") else o.result
+            lay["res"], lay["gps"] = list(int(r).to_bytes(2, "big")), list(o.gpsdata.as_bytes())
+    elif proto == "TMP":
+        lay["req"], lay["ip"], lay["ip2"] = list(int(o.request_id).to_bytes(4, "big")), ip(o.destination_ip), ip(o.source_ip)
+        lay["res"] = code(o.result_code) if o.result_code is not None else []
+        lay["body"] = list(o.text_data) if o.opcode.name in ("SendPrivateMessage", "SendGroupMessage") else list(o.short_data)
+        lay["has_opt"], lay["opt"], lay["confirmed"] = bool(o.has_option), list(o.option_data or b""), bool(o.is_confirmed)
+    return lay
+
+
 def run(ctx):
     ctx.rule = ("every implemented opcode of RRS (5), LP (2), TMP (8), RCP (17) built from in-range fields (boundary radio ids, request ids up to "
                 "2^32-1, UTF-16 text, option data 0..300 octets, GPS over the NMEA range incl. speeds >= 10 kn), serialised, parsed, re-serialised, "
@@ -133,11 +163,15 @@ def run(ctx):
     for rnd in range(per):
         for proto, name, build in B:
             owned = []
-            s = {"proto": proto, "op": name, "err": "", "frame": [], "reliable": False, "len": 0, "frame2": [], "fields_equal": False,
+            s = {"proto": proto, "op": name, "lay": layout_fields("-", None), "err": "", "frame": [], "reliable": False, "len": 0, "frame2": [], "fields_equal": False,
                  "hrnp": [], "hrnp2": [], "hrnp_ok": False, "hstrp": [], "hstrp2": [], "sn": 0, "opts": []}
             stage = "build"
             try:
                 o = build(rng)
+                try:
+                    s["lay"] = layout_fields(proto, o)
+                except Exception as ex:  # noqa: the harness reads attributes the object does not have
+                    raise core.MachineryError(f"layout_fields({proto}/{name}): {type(ex).__name__}: {ex}")
                 owned.append(o)
                 s["reliable"] = bool(o.is_reliable)
                 stage = "serialise"
@@ -187,6 +221,8 @@ def run(ctx):
                 hs2 = HSTRP.from_bytes(sb)
                 owned += [hs, hs2]
                 s["hstrp2"] = list(hs2.as_bytes())
+            except core.MachineryError:
+                raise
             except Exception as ex:  # noqa
                 s["err"] = f"{stage}:{type(ex).__name__}"
             if rnd % 2:
@@ -207,6 +243,11 @@ def run(ctx):
     for v in core.parse_printed_json(res, tag="REJECT"):
         s = samples[v["idx"]]
         groups.setdefault(f"hytera/{s['proto']}/{s['op']}/{v['why']}", []).append(s)
+    drift = {}
+    for v in core.parse_printed_json(res, tag="DRIFT"):
+        drift[v["why"]] = drift.get(v["why"], 0) + 1
+    for why, n_ in sorted(drift.items()):
+        ctx.model_drift(f"{why} ({n_} PDUs)")
     for key, items in sorted(groups.items()):
         ctx.violation(key, f"{key}: {len(items)} PDUs, first frame {bytes(items[0]['frame']).hex()[:120]} err={items[0]['err']}",
                       {"count": len(items), "first": items[:2]})
